@@ -334,7 +334,7 @@ ALT = ["4qln.cif", "4qln.pdb", "488d.pdb"]
 
 def plan(tier, seed):
     if tier == "quick":
-        specs = [{"kind": "tables", "examples": 25, "seed": seed * 1000 + k} for k in range(12)]
+        specs = [{"kind": "tables", "examples": 60, "seed": seed * 1000 + k} for k in range(16)]
         specs += [{"kind": "files", "files": [f], "max_models": 2} for f in corpus.SMALL[:6] + ["1JJP.cif", "488d.pdb", "4qln.pdb"]]
     else:
         specs = [{"kind": "tables", "examples": 650, "seed": seed * 1000 + k} for k in range(16)]
